@@ -1009,6 +1009,70 @@ func (h *vHist) do(op string) (res vh.Result) {
 		}
 		res.ModelOp = op + " " + strings.Join(groups, "/")
 		res.Out, res.NonTrivial = h.result(evs, "")
+	case "slowlost":
+		// Connection loss whose final cleanup(false) is still walking its list when the next sweep fires:
+		// every open socket's Close() is gated, so the receive loop parks inside the first CloseWithErr of
+		// its walk; virtual time runs to the next sweep tick (this goroutine wakes at the same instant);
+		// the sweeper scans and either parks in a gated Close() of an idle session or waits for the
+		// connLock the receive loop holds; then all gates open.  Only the census is compared.
+		if len(f) != 1 {
+			return bad
+		}
+		if h.held != nil {
+			return vh.Result{Out: "busy"}
+		}
+		if !h.down {
+			t0 := h.now()
+			tk := (time.Duration(int64(t0)/int64(vInterval)) + 1) * vInterval
+			gate := make(chan struct{})
+			h.w.mu.Lock()
+			for _, c := range h.w.socks {
+				if c.closes == 0 {
+					c.closeGate = gate
+				}
+			}
+			h.w.mu.Unlock()
+			h.down = true
+			close(h.w.lost)
+			synctest.Wait() // the receive loop is parked on the gate channel (or done, if no socket was open)
+			time.Sleep(tk - t0)
+			parkedNow := func() int {
+				h.w.mu.Lock()
+				defer h.w.mu.Unlock()
+				n := 0
+				for _, c := range h.w.socks {
+					if c.closeHeld {
+						n++
+					}
+				}
+				return n
+			}
+			if parkedNow() > 0 {
+				for i := 0; i < 200000; i++ { // until the sweeper has scanned and started closing (or: nothing idle)
+					runtime.Gosched()
+					if parkedNow() >= 2 || (i%64 == 63 && closerBlockedOnLock()) {
+						break
+					}
+				}
+			}
+			close(gate)
+			synctest.Wait()
+			h.w.mu.Lock()
+			var gates []chan error
+			for _, c := range h.w.socks {
+				if c.gate != nil {
+					gates = append(gates, c.gate)
+				}
+			}
+			h.w.mu.Unlock()
+			for _, g := range gates {
+				g <- errors.New("connection lost")
+			}
+			synctest.Wait()
+			h.exp = map[uint32]*sessExp{}
+		}
+		evs := h.drain()
+		res.Out, res.NonTrivial = "slowl | "+h.summary(), len(evs) > 0
 	case "connlost":
 		if len(f) != 1 {
 			return bad
@@ -1589,6 +1653,35 @@ func genSession(r *vh.RNG, n int, emit func(op string, tags ...string)) {
 		// override variety live in the udpacl stream of C08)
 		emit(fmt.Sprintf("reset %d .", timeoutMs), "s:reset")
 		total++
+		if r.Chance(1, 10) {
+			// connection loss racing the sweep: a group of sessions that becomes idle exactly at the next
+			// sweep, a younger group that is not idle, then the loss with slow Close() calls
+			ids := []uint32{1, 2, 3, 4, 5, 6, 7, 8}
+			nOld, nNew := r.Range(2, 4), r.Range(1, 4)
+			mk := func(id uint32) {
+				seq++
+				emit(fmt.Sprintf("msg %d 0 0 1 %s %s K 0 1", id, pool[r.Intn(len(pool))], vh.Hex([]byte{byte(seq>>8) | 0x80, byte(seq), 1})), "s:msg")
+				total++
+			}
+			for i := 0; i < nOld; i++ {
+				mk(ids[i])
+			}
+			emit("sleep 750", "s:sleep")
+			for i := 0; i < nNew; i++ {
+				mk(ids[nOld+i])
+			}
+			// old group: Last = 0, idle at the first tick t with t > timeout; wait until just before it
+			first := (timeoutMs/1000 + 1) * 1000
+			d := first - 750 - []int{250, 500, 1}[r.Intn(3)]
+			if d <= 0 {
+				d = 1
+			}
+			emit(fmt.Sprintf("sleep %d", d), "s:sleep")
+			emit("slowlost", "s:slowlost")
+			emit("connlost", "s:connlost")
+			total += 4
+			continue
+		}
 		nops := r.Range(5, 40)
 		dials := 0
 		heldFor := 0
